@@ -10,6 +10,9 @@ pub mod oneshot {
         pub fn send(self, t: T) -> (r: Result<(), T>)
             requires super::may_deliver(self, t),
             ensures r is Err ==> r->Err_0 == t,
+                // ghost event "this channel was answered with t" (an uninterpreted predicate: the ONLY way to learn it holds is
+                // this postcondition, so a contract that claims it forces a send on every path)
+                super::answered(self, t),
         { unimplemented!() }
     }
 }
@@ -78,6 +81,8 @@ pub mod serde_json {
     #[verifier::external_body]
     pub fn to_string<T>(v: &T) -> (r: Result<String, Error>) ensures r is Ok ==> r->Ok_0@ == json_of(*v) { unimplemented!() }
 }
+// completeness counterpart of the permission below: channel `s` was answered with `v`
+pub uninterp spec fn answered<T>(s: oneshot::Sender<T>, v: T) -> bool;
 // permission to deliver value `v` on one-shot channel `s` (see DESIGN.md §4: ghost events).
 pub uninterp spec fn may_deliver<T>(s: oneshot::Sender<T>, v: T) -> bool;
 // permission to offer message `m` to the buffer behind subscription sink `s` (ghost event `offered`)
